@@ -152,6 +152,9 @@ pub struct Global {
     pub inst_counter: BTreeMap<u32, u32>,
     pub sched: Option<crate::thread::Sched>,
     pub unregistered_events: u32,
+    /// Mode::Free: names of the real threads that logged events (index = entity id)
+    pub free_names: Vec<Option<String>>,
+    pub free_ids: Vec<std::thread::ThreadId>,
     /// reference mode: (inv, inst, step, number of failing branches) for every failed step
     pub fail_notes: Vec<(u32, u32, u32, u32)>,
     /// reference mode: renderings the top-level async try macro may legitimately return
@@ -191,6 +194,8 @@ impl Global {
             inst_counter: BTreeMap::new(),
             sched: None,
             unregistered_events: 0,
+            free_names: Vec::new(),
+            free_ids: Vec::new(),
             fail_notes: Vec::new(),
             alts: Vec::new(),
             logging: true,
@@ -209,6 +214,8 @@ impl Global {
         self.inst_counter.clear();
         self.sched = None;
         self.unregistered_events = 0;
+        self.free_names.clear();
+        self.free_ids.clear();
         self.fail_notes.clear();
         self.alts.clear();
         self.logging = true;
@@ -236,6 +243,17 @@ impl Global {
         if (ph as u8) <= 2 {
             self.happened.insert((ev, occ, ph as u8));
         }
+    }
+
+    /// Mode::Free: entity id of the calling real thread
+    pub fn free_ent(&mut self) -> u32 {
+        let id = std::thread::current().id();
+        if let Some(i) = self.free_ids.iter().position(|x| *x == id) {
+            return i as u32;
+        }
+        self.free_ids.push(id);
+        self.free_names.push(std::thread::current().name().map(|s| s.to_string()));
+        (self.free_ids.len() - 1) as u32
     }
 
     pub fn dep_ok(&self, ev: u32, occ: u32) -> bool {
